@@ -298,7 +298,12 @@ func (x *c02Run) revokeAndClassify(fl c02Flow, p *c02Tok, probe *c02Mount) strin
 	}
 	mark := v.Rec.Len()
 	r2, e2 := v.Do(vReq{Tag: "c02alive", Op: op, Path: path, Token: p.ID, NS: hdr})
-	handled := v.Rec.Len() != mark
+	handled := false
+	for _, e := range v.Rec.Since(mark) { // other events (a worker revoking a leased secret) may interleave
+		if e.Kind == "handler" && e.Path == "data/c02alive" {
+			handled = true
+		}
+	}
 	if p.UsesMax > 0 {
 		p.UsesUpper++
 	}
@@ -396,9 +401,15 @@ func (x *c02Run) batchFamily(ns, nsTag string, all []string) {
 		e.f = x.arm(e.sel(), e.at, false)
 		x.expiry = append(x.expiry, e)
 		mark := x.v.Rec.Len()
-		resp, err := x.v.Do(vReq{Tag: "c02burn", Op: logical.ReadOperation, Path: probe.Abs + "data/burn", Token: sp.ID})
+		resp, err := x.v.Do(vReq{Tag: "c02burn", Op: logical.ReadOperation, Path: probe.Abs + "data/c02spend", Token: sp.ID})
 		sp.UsesUpper++
-		if vOK(resp, err) && x.v.Rec.Len() == mark+1 {
+		ran := 0
+		for _, ev := range x.v.Rec.Since(mark) {
+			if ev.Kind == "handler" && ev.Path == "data/c02spend" && ev.Mount == probe.Abs {
+				ran++
+			}
+		}
+		if vOK(resp, err) && ran == 1 {
 			sp.UsesLower++
 			r.Count("world_spent_tokens_with_failing_deferred_revocation", 1)
 		}
